@@ -28,7 +28,7 @@ pub trait Describe {
 }
 
 fn deadline_ms(i: std::time::Instant) -> i64 {
-    cur().map(|s| s.ms_of(i)).unwrap_or(0)
+    cur().map(|s| s.ms_of_local(i)).unwrap_or(0)
 }
 
 impl Describe for tarpc::ClientMessage<u64> {
